@@ -266,3 +266,41 @@ func EsdsWhere(box []byte, pos int) string {
 	}
 	return fmt.Sprintf("tail")
 }
+
+// Stage5Variants: structured VALID boxes of the kinds added in the third extension round: the WebVTT family (string
+// boxes, vtte, vsid, vttc containers), ilst with GenericContainerBox items, and MetaBox in both forms (ISO: version and
+// flags first; QuickTime: the hdlr box first), alone and nested, with short payloads and a large-size header.
+func Stage5Variants() [][]byte {
+	fb := func(typ string, version byte, flags uint32, rest ...[]byte) []byte {
+		return Box(typ, Cat(append([][]byte{vf(version, flags)}, rest...)...))
+	}
+	hdlr := func(ht string, name string) []byte {
+		return fb("hdlr", 0, 0, U32(0), []byte(ht), make([]byte, 12), []byte(name))
+	}
+	large := func(typ string, body []byte) []byte {
+		return Cat(U32(1), []byte(typ), U64(uint64(16+len(body))), body)
+	}
+	var out [][]byte
+	for _, t := range []string{"vttC", "vlab", "ctim", "iden", "sttg", "payl", "vtta"} {
+		out = append(out, Box(t, nil), Box(t, []byte("WEBVTT")), Box(t, []byte("line:1 position:50%\x00\xff")))
+	}
+	out = append(out, Box("vtte", nil), Box("vsid", U32(7)), Box("vsid", U32(0xfffffffe)))
+	out = append(out,
+		Box("vttc", nil),
+		Box("vttc", Cat(Box("vsid", U32(1)), Box("iden", []byte("c1")), Box("ctim", []byte("00:01")), Box("sttg", []byte("a")), Box("payl", []byte("text")))),
+		Box("vttc", Cat(Box("payl", []byte("x")), Box("zzzz", []byte{1}), Box("vtte", nil))),
+		Box("ilst", nil),
+		Box("ilst", Cat(Box("\xa9too", Box("free", []byte("Lavf"))), Box("\xa9nam", nil), Box("\xa9ART", Box("zzzz", []byte{1, 2})), Box("\xa9cpy", nil), Box("desc", Box("skip", nil)))),
+	)
+	h1, h2 := hdlr("mdir", "\x00"), hdlr("mdta", "n\x00")
+	ilst := Box("ilst", Box("\xa9too", Box("free", []byte("Lavf58"))))
+	for _, kids := range [][]byte{nil, h1, Cat(h1, ilst), Cat(h2, Box("free", make([]byte, 5))), Cat(ilst, h1), Box("free", nil), Cat(Box("free", []byte("hdlr")), h1)} {
+		out = append(out, Box("meta", Cat(vf(0, 0), kids)), Box("meta", Cat(vf(1, 0x7), kids)), Box("meta", kids)) // ISO, ISO, QuickTime (when hdlr comes first)
+		out = append(out, large("meta", Cat(vf(0, 0), kids)), large("meta", kids))
+		out = append(out, Box("udta", Box("meta", Cat(vf(0, 0), kids))), Box("udta", Cat(Box("meta", kids), Box("free", nil))))
+	}
+	// an ISO meta whose bytes 4..8 of the payload are not "hdlr" although the first child is a hdlr; payloads below 8 bytes
+	out = append(out, Box("meta", vf(0, 0)), Box("meta", []byte{0, 0}), Box("meta", Cat(vf(0, 0), []byte{0, 0, 0})),
+		Box("meta", Cat([]byte("hdlr"), h1)), Box("meta", Cat(U32(33), []byte("hdlr"))))
+	return out
+}
